@@ -3,7 +3,8 @@
 import ast, collections, difflib, json, os, sys
 sys.path.insert(0, os.path.dirname(os.path.abspath(__file__)))
 import mutate
-rows = [json.loads(l) for l in open(os.path.join(mutate.ROOT, "out", "mutation", "results.jsonl")) if l.strip()]
+RESULTS = os.environ.get("MUTATE_RESULTS", "results.jsonl")  # results-swap.jsonl for MUTATE_OPS=swap
+rows = [json.loads(l) for l in open(os.path.join(mutate.ROOT, "out", "mutation", RESULTS)) if l.strip()]
 c = collections.Counter(r["result"].split(":")[0] for r in rows)
 by = collections.Counter(r["result"] for r in rows if r["result"].startswith("caught-by"))
 print(dict(c)); print(dict(by))
@@ -20,7 +21,7 @@ for r in rows:
         try:
             mut = mutate.mutant_source(rel, int(mid), kind, int(sub))
             d = [l for l in difflib.unified_diff(orig.splitlines(), mut.splitlines(), lineterm="", n=0) if l[0] in "+-" and not l.startswith(("+++", "---"))]
-            txt = " || ".join(x.strip() for x in d)[:260]
+            txt = " || ".join(x.strip() for x in d)[:int(os.environ.get("MUTATE_WIDTH", "260"))]
         except Exception as e:
             txt = repr(e)
         print(f"{r['result'][:9]} {rel.split('/')[-1]}:{fn}: {txt}")
